@@ -46,9 +46,29 @@ REGISTRY = {
             'tomlkit Item.comment shim active (the image has tomlkit 0.15.1, which rejects the comments dump_file writes)',
         ],
     },
+    'C13': {
+        'world': 'db', 'profile': '', 'faulty': False,
+        'sessions': {'quick': 9000, 'thorough': 150000},
+        'budget': {'quick': 90, 'thorough': 1500},
+        'rule': 'One case = one seeded session of table operations (remove, add_column/define_variable, scale, panel, '
+                'split, resample rows/individuals, extract, flatten, count, mdcev_count/row_split, refused operations, '
+                'RNG advances) on one Database, stepped against a row-list model. Distinct = distinct sha256 of '
+                '(operation kinds, model state after every operation). Non-trivial = at least 3 mutating operations '
+                'of at least 2 kinds.',
+        'components': {'real': REAL, 'stub': ['np.random / random seeded per session (split, resample)']},
+        'assumptions': [
+            'a removal that would delete every row is not issued (an empty table is refused by the Database constructor)',
+            'row identity is followed through a unique tag column that no operation mutates',
+            'no file-system or crash fault applies: these operations touch no file (fault kind used: rng-advance, refused operations)',
+        ],
+    },
 }
 
 LEVEL_TEXT = {
+    'C13': 'Seeded search over operation histories on one mutable table (with index gaps, shuffled, offset and duplicated '
+           'index labels, contiguous and non-contiguous groups); after every operation the real table is compared '
+           'cell by cell with a row-list reference model and every returned frame (folds, resamples, extracts, flat '
+           'table) with what the model implies. Sampling, not proof.',
     'C14': 'Seeded search over histories of output generation in one directory, with adversarial pre-existing entries, '
            'I/O errors, torn/short writes and real process deaths; the directory is compared byte-for-byte with its '
            'state before each operation at every destructive FS event and after the operation; pickles are reloaded '
@@ -67,7 +87,6 @@ NOT_APPLICABLE = {
     'C09': 'not yet built in this tree (planned: W-panel)',
     'C10': 'not yet built in this tree (planned: W-eval draws profile)',
     'C12': 'not yet built in this tree (planned: W-eval fault profile)',
-    'C13': 'not yet built in this tree (planned: W-db)',
     'C16': 'not yet built in this tree (planned: W-cat)',
     'C02': 'derivatives are a pure function of (formula, row, parameter point): no schedule, clock, fault or history; deciding it is numerical differential testing, not simulation',
     'C05': 'choice probabilities are pure algebra of utilities, availabilities and nest parameters: nothing for a simulator to schedule or fault',
